@@ -47,6 +47,88 @@ def _split_linear(R):
     return (fem._add(a) if a else None), (fem._add(l_) if l_ else None)
 
 
+def _neg_of(t):
+    """X if t is (-1) * X, else None"""
+    if t[0] == '*':
+        if t[1][0] == 'k' and t[1][1] == -1:
+            return t[2]
+        if t[2][0] == 'k' and t[2][1] == -1:
+            return t[1]
+    return None
+
+
+def ev_ops(t, Uf, Vf, w, accs, rng):
+    """The same meaning as fem.ev_term, but written the way a user writes an integrand: scalar value components of u and
+    v are the BARE field objects the form receives (JaxDiscreteField), and the arithmetic operators are applied to them in
+    both operand orders with Python floats, NumPy scalars and arrays on the other side:
+      a * u / u * a,  u / (1/a),  u ** 2,  a - u (for a + (-1) * u: float, array or field on the left),  u - a,  u + a.
+    Only operator forms that exist on the field class are used (it has no __radd__ / __neg__); the choices are drawn
+    from `rng`, re-seeded identically for every evaluation of the form."""
+    op = t[0]
+    if op in ('u', 'v'):
+        f, attr, idx = accs[op][t[1] - 1]
+        F = (Uf if op == 'u' else Vf)
+        if attr == 'value' and len(idx) == 0 and hasattr(F[f], 'value') and hasattr(F[f], 'astuple'):
+            return F[f]                                   # the bare field
+        return fem.comp(F, (f, attr, idx))
+    if op in ('f', 'p'):
+        return fem.ev_term(t, Uf, Vf, w, accs)
+    if op == 'k':
+        return float(t[1]) if rng.integers(0, 2) else np.float64(t[1])
+    bare = lambda x: hasattr(x, 'astuple')
+
+    def left_ok(x):
+        """what may stand on the LEFT of a bare field: Python numbers and JAX arrays defer to the field's reflected
+        operator; NumPy scalars / arrays would try to convert the field (a documented limitation, not exercised)"""
+        import jax
+        return (isinstance(x, (int, float)) and not isinstance(x, np.generic)) or isinstance(x, jax.Array) or bare(x)
+
+    def mul(x, y):
+        if bare(y) and not left_ok(x):
+            return y * x
+        if bare(x) and not bare(y) and left_ok(y) and rng.integers(0, 2):
+            return y * x                                   # c * u  (reflected operator)
+        return x * y
+    if op == '*':
+        if t[1] == t[2] and t[1][0] in ('u', 'v'):
+            a_ = ev_ops(t[1], Uf, Vf, w, accs, rng)
+            return a_ ** 2 if bare(a_) else a_ * a_
+        a_ = ev_ops(t[1], Uf, Vf, w, accs, rng)
+        b_ = ev_ops(t[2], Uf, Vf, w, accs, rng)
+        for x, y in ((a_, b_), (b_, a_)):
+            if bare(x) and isinstance(y, (float, np.floating)) and float(y) in (2.0, 4.0, -2.0) and rng.integers(0, 3) == 0:
+                return x / (1.0 / float(y))                # u / c
+        return mul(a_, b_)
+    # op == '+'
+    for X, Y in ((t[1], t[2]), (t[2], t[1])):
+        n = _neg_of(Y)
+        if n is not None:
+            x = ev_ops(X, Uf, Vf, w, accs, rng)
+            y = ev_ops(n, Uf, Vf, w, accs, rng)
+            if bare(y) and not left_ok(x):
+                x = float(x) if isinstance(x, np.generic) else x
+                if not left_ok(x):
+                    y = y.value                            # a NumPy array on the left: written with the field's value
+            return x - y                                   # c - u, x_k - u, u - c, u - u'
+    a_ = ev_ops(t[1], Uf, Vf, w, accs, rng)
+    b_ = ev_ops(t[2], Uf, Vf, w, accs, rng)
+    if bare(b_) and not bare(a_):
+        return b_ + a_                                     # the field class has no __radd__
+    return a_ + b_
+
+
+def ops_callable(term, accs, nfu, seed, term_im=None, energy=False):
+    def form(*args):
+        w = args[-1]
+        Uf, Vf = (args[:-1], None) if energy else (args[:nfu], args[nfu:-1])
+        out = ev_ops(term, Uf, Vf, w, accs, np.random.default_rng(seed))
+        if term_im is not None:
+            out = out + 1j * ev_ops(term_im, Uf, Vf, w, accs, np.random.default_rng(seed + 1))
+        return out.value if hasattr(out, 'astuple') else out
+    form.__name__ = 'grammar_ops'
+    return form
+
+
 def exec_nl(rec):
     """one NonlinearForm object (and, for integrands linear in u, one BilinearForm / LinearForm object), assembled in a
     call history: at rec['x'], at further linearisation points written IN PLACE into the same array object, and then -
@@ -86,7 +168,11 @@ def exec_nl(rec):
         accs = {'u': acc, 'v': acc, 'f': facc}
         nf = len(basis.basis[0])
         if 'nl' not in forms:
-            if mode == 'hessian':
+            if rec.get('ops') is not None:
+                # operator style: the integrand works on the bare field objects (see ev_ops)
+                forms['nl'] = NonlinearForm(ops_callable(R, accs, nf, rec['ops'], Ri, energy=(mode == 'hessian')),
+                                            dtype=cdtype, **({'hessian': True} if mode == 'hessian' else {}))
+            elif mode == 'hessian':
                 def energy(*args):
                     out = fem.ev_term(R, args[:-1], None, args[-1], accs)
                     return out + 1j * fem.ev_term(Ri, args[:-1], None, args[-1], accs) if Ri else out
@@ -221,6 +307,7 @@ def gen_nl(rng):
         fields.append({'name': 'g', 'kind': 'val', 'val': [[int(v) for v in row] for row in rng.integers(-2, 3, size=(nel, nq))]})
         avail.append(('g', 1))
     mode = str(rng.choice(['residual', 'residual', 'residual', 'hessian', 'linear']))
+    ops = bool(rng.integers(0, 2))          # the integrand is written with operators on the bare field objects
     maxdeg = 3 if B['sphi'] <= 2 else 2
     ss = []
     for it in range(int(rng.integers(1, 4))):
@@ -235,6 +322,18 @@ def gen_nl(rng):
             dname, dn = avail[int(rng.integers(0, 2 if bs['type'] != 'cell' else 1))]
             coef = [['f', dname, int(rng.integers(1, dn + 1))]]
         fac = coef + [['u', int(rng.integers(1, nc + 1))] for _ in range(nu_)]
+        if ops and mode != 'linear' and nu_ >= 1 and rng.integers(0, 3) != 0:
+            # a difference factor in place of one u: (c - u), (x_k - u), (u - c), (u - u') -- e.g. the logistic (1 - u) u v
+            uu = fac.pop()
+            r = int(rng.integers(0, 4))
+            left = [['k', int(rng.choice([1, 2, 3]))], (['f', 'x', int(rng.integers(1, mesh.dim() + 1))] if any(a[0] == 'x' for a in avail)
+                                                        else ['k', 2]), None, None][r]
+            if r <= 1:
+                fac.append(['+', left, ['*', ['k', -1], uu]])
+            elif r == 2:
+                fac.append(['+', uu, ['*', ['k', -1], ['k', int(rng.choice([1, 2]))]]])
+            else:
+                fac.append(['+', uu, ['*', ['k', -1], ['u', int(rng.integers(1, nc + 1))]]])
         if mode != 'hessian':
             fac.append(['v', int(rng.integers(1, nc + 1))])
         if not fac:
@@ -247,6 +346,8 @@ def gen_nl(rng):
     rec = {'driver': 'nl', 'mesh': mrec, 'bs': bs, 'grad': grad, 'fields': fields, 'alpha': int(rng.choice([-2, 2, 3])),
            'R': R, 'mode': 'residual' if mode == 'linear' else mode, 'lin': int(mode == 'linear'),
            'x': [int(v) for v in rng.integers(-2, 3, size=basis.N)] if rng.integers(0, 6) else [0] * basis.N}
+    if ops:
+        rec['ops'] = int(rng.integers(1, 10 ** 6))
     if rng.integers(0, 3) == 0:
         # complex-valued form: imaginary part with its own (source / absorption / nonlinear) terms
         ssi = []
@@ -265,7 +366,7 @@ def gen_nl(rng):
     if reuse:
         rec['bs2'] = dict(bs, **alt)
     return rec, {'a': 'NL', 'kind': kind, 'btype': btype, 'elem': fem.elem_name(spec), 'mode': mode, 'tier': 'exact',
-                 'reuse': int(reuse), 'hist': len(rec.get('xs', [])), 'complex': int('R_im' in rec)}
+                 'reuse': int(reuse), 'hist': len(rec.get('xs', [])), 'complex': int('R_im' in rec), 'ops': int(ops)}
 
 
 # ------------------------------------------------------------------------------------------ helpers
